@@ -139,11 +139,15 @@ def _gen_virt(rng, tier):
 def _gen_drain(rng, tier):
     """A graph re-scheduling itself every smallest step with the wall clock already past end: the drain bound.
     Variants: an unbroken chain (cut after 1024 cycles), a chain broken by one larger step (counter resets)."""
-    v0 = 50000
     start = 1000
     span = rng.choice([1040, 1100, 1300])
     end = start + span
-    lines = [[1, start, end, 10, 1, v0, 1], [6, 1], [3, 1, -1, 1, 0], [3, 1, -2, 1, 1]]
+    if rng.random() < 0.4:
+        # the wall clock stands exactly at end_time (boundary of "past end")
+        v0, dflt = end, 0
+    else:
+        v0, dflt = 50000, 1
+    lines = [[1, start, end, 10, 1, v0, dflt], [6, 1], [3, 1, -1, 1, 0], [3, 1, -2, 1, 1]]
     if rng.random() < 0.5:
         k = rng.randint(3, 400)
         lines.append([3, 1, k, 1, rng.choice([2, 3])])
